@@ -899,6 +899,23 @@ PF27_LISTED = [False]     # set by run(): is PF-27 an open known finding (then i
 PF29_LISTED = [False]
 
 
+INSPECTING = ('min', 'max', 'mod', 'floor', 'ceil', 'abs', 'lt', 'le', 'gt', 'ge', 'eq', 'ne')
+
+
+def closed_sum_inspected(t, symbolic=(), inspected=False, bound=()) -> bool:
+    """class (b) of PF-27 / PF-29: a Sum all of whose free names are numbers for sympy (none as written, or all in
+    `symbolic`, the names replaced by evaluate_symbolic) below a function that needs its sign or value"""
+    if t[0] == 'sum':
+        free = [x for x in tree_vars(t) if x not in bound]
+        if inspected and all(x in symbolic for x in free):
+            return True
+        return (closed_sum_inspected(t[2], symbolic, inspected, bound) or closed_sum_inspected(t[3], symbolic, inspected, bound)
+                or closed_sum_inspected(t[4], symbolic, inspected, bound + (t[1],)))
+    ins = inspected or t[0] in INSPECTING
+    return any(isinstance(x, tuple) and closed_sum_inspected(x, symbolic, ins or (t[0] == 'ite' and i == 1), bound)
+               for i, x in enumerate(t[1:], 1))
+
+
 def nested_sum_in_minmax(t) -> bool:
     """class of PF-29: a Min/Max with an argument that contains a Sum inside the body of another Sum"""
     def nested(u, inside):
@@ -944,7 +961,7 @@ def prepare(case: Case):
         err = 0.0
     case.scale = tr.scale
     case.dead_error = tr.dead_error
-    if tr.reversed_sum and PF27_LISTED[0]:
+    if PF27_LISTED[0] and (tr.reversed_sum or closed_sum_inspected(case.tree, tuple(case.extra.get('symbolic', ())))):
         case.skip = 'known-PF-27'
     elif case.floats and (tr.fragile or tr.big):
         case.skip = 'fragile' if tr.fragile else 'range'
@@ -1028,7 +1045,8 @@ def verdict(ctx, case: Case, ans):
     if getattr(case, 'dead_error', False):
         ctx.count(fam + ':undefined-body-of-empty-sum:' + exc)
         return None
-    if PF29_LISTED[0] and exc == 'ValueError' and 'not comparable' in impl[2] and nested_sum_in_minmax(case.tree):
+    if PF29_LISTED[0] and exc == 'ValueError' and 'not comparable' in impl[2] and tree_has(case.tree, ('sum',)) \
+            and tree_has(case.tree, ('min', 'max')):
         ctx.count(fam + ':suppressed-known-PF-29')
         return None
     return ('violation', 'raised %s (%s) where the written formula has the value %s'
@@ -1262,7 +1280,8 @@ def mk_partial(tree, env, extra):
             return e.evaluate_with_exact_rationals(last)
         return e.evaluate_in_scope(last)
     floats = not (extra.get('final') == 'exact' and not env_uses_floats(env))
-    c = Case('partial', tree, env, None, floats, what='partial substitution order %s' % (groups,), extra=dict(extra, kind='partial'))
+    c = Case('partial', tree, env, None, floats, what='partial substitution order %s' % (groups,),
+             extra=dict(extra, kind='partial', symbolic=[x for g in groups[:-1] for x in g]))
     c.spec = ['partial', [env_sexp({x: env[x] for x in g}) for g in groups[:-1]], to_sexp(tree)]
     c.lean_env = {x: env[x] for x in groups[-1]}
     c.impl = outcome(run)
@@ -1355,7 +1374,8 @@ def mk_roundtrip(tree, env, extra):
     result_tree = tree
     if derive == 'arith' and first:
         result_tree = ('div', ('mul', tree, var(first[0])), var(first[0]))
-    c = Case('roundtrip', result_tree, env, None, True, what='serialisation round trip (%s, %s)' % (via, derive), extra=dict(extra, kind='roundtrip'))
+    c = Case('roundtrip', result_tree, env, None, True, what='serialisation round trip (%s, %s)' % (via, derive),
+             extra=dict(extra, kind='roundtrip', symbolic=first if derive == 'subst' else []))
     c.impl = outcome(run)
     return c
 
@@ -1393,7 +1413,8 @@ def mk_vector(trees, env, extra):
             c.lenient = True          # a sibling entry has no value: refusing the whole vector is an accepted answer
     else:
         c = Case('vector', tuple(['vecx'] + list(trees)), env, None, True, what='ExpressionVector %s' % how,
-                 extra=dict(extra, kind='vector', trees=[tree_to_json(t) for t in trees]))
+                 extra=dict(extra, kind='vector', trees=[tree_to_json(t) for t in trees],
+                            symbolic=extra.get('first', []) if how == 'subst' else []))
     c.impl = outcome(run)
     return c
 
@@ -1871,9 +1892,22 @@ def hits_reversed_sum(tree, env) -> bool:
     return tr.reversed_sum
 
 
+def rough_closed_sum(t, bound=()) -> bool:
+    """a Sum without free names whose summand is not a polynomial (sympy's evalf of it is an approximation)"""
+    if t[0] == 'sum':
+        free = [x for x in tree_vars(t) if x not in bound]
+        if not free and tree_has(t[4], EXTENDED + ('floor', 'ceil', 'mod', 'abs', 'min', 'max', 'div', 'pow', 'sum')):
+            return True
+        return any(rough_closed_sum(x, bound + (t[1],) if i == 4 else bound) for i, x in enumerate(t[1:], 1) if isinstance(x, tuple))
+    return any(isinstance(x, tuple) and rough_closed_sum(x, bound) for x in t[1:])
+
+
 def compare_verdict(ctx, op, ltree, rtree, ans, model, evals):
     if PF27_LISTED[0]:
         both = ('vecx', ltree, rtree)
+        if rough_closed_sum(both):
+            ctx.count('compare:skipped-known-PF-27')
+            return []
         if not tree_vars(both) and hits_reversed_sum(both, {}):
             ctx.count('compare:skipped-known-PF-27')
             return []
